@@ -1,31 +1,36 @@
 (* C05 -- `<name>_complete` fires exactly once, after the whole causal closure has drained.
-   Only statements here; proofs are in Proofs/EffectsP.v, the model in Model/Effects.v
-   (the model of the code WITH fixes/C05_cancelled_effect.patch and
-   fixes/C05_generator_step_effects.patch applied).
+   Only statements here; proofs are in Proofs/EffectsP.v, the model in Model/Effects.v.
 
    Reading guide.  A state [s] is [reachable] when it is obtained from [start roots] (any forest
    of scripted events fired from outside a handler) by ANY sequence of steps
-   [LDisp] (dispatch the head of the queue) / [LTask p] (one next() of the p-th pending generator
-   handler): every task-set iteration order and every interleaving of task steps and flushes,
-   not only the one of Manager.tick.  Events are numbered in firing order.  [gpar s d = Some h]
-   (ghost) says that d was fired by a handler (plain, or any step of a generator handler) of h,
-   or is the `exception` event of a raising handler of h; [gdesc (gpar s) e d] is "d belongs to
-   the causal closure of e".  [phase s d = PFin] (ghost) says that d has been dispatched to all
-   its handlers and all its generator handlers have returned, or that d was cancelled and has
-   been skipped by the dispatcher.  [log s] is newest-first. *)
+   [LDisp p] (dispatch the p-th queued event -- ANY queued event, so every priority order and
+   every batching of flushes is covered) / [LTask p] (one next() of the p-th registered task:
+   every task-set iteration order and every interleaving of task steps and flushes), under the
+   current code ([fixed]).  Scripts: events with complete / success / failure requests, a
+   priority and a channel; plain handlers that fire, stop() and raise; generator handlers whose
+   steps fire, raise or `yield self.call(event)`.  Events are numbered in firing order.
+   [gpar s d = Some h] (ghost) says that d was fired while handling h: by a plain handler or any
+   step of a generator handler of h (incl. the event of a call), or d is the `exception` /
+   `<h>_failure` event of a raising handler of h (C05_feedback_in_closure);
+   [gdesc (gpar s) e d] is "d belongs to the causal closure of e".  [phase s d = PFin] (ghost)
+   says that d has been dispatched to all its handlers and all its generator handlers have
+   returned or raised, or that d was cancelled and has been skipped by the dispatcher.
+   [log s] is newest-first.  `<name>_success` and `<name>_done` are fired by _eventDone when the
+   handling is over; the code does not count them as effects, and neither does this file
+   (C05_ex_success_outside). *)
 From Coq Require Import List ZArith Bool Arith.
 From Circ Require Import Model.Effects Proofs.EffectsP.
 Import ListNotations.
 
 (* the invariant named by the property's anchors: for every event that still carries a cause
    attribute, effects = (1 if the event itself is not finished) + number of events whose cause
-   attribute points to it *)
+   attribute points to it.  Independent of the order in which queued events are dispatched. *)
 Theorem C05_counter : forall s, reachable s -> forall e, cause s e <> None ->
   effects s e = Z.of_nat (selfc (phase s) e + cnt (childb (cause s) e) (next s)).
 Proof. exact counter_inv. Qed.
 Print Assumptions C05_counter.
 
-(* the `while True` cause-chain walk of _eventDone always terminates (the fuel of the model's
+(* the `while True` cause-chain walk of _effectDone always terminates (the fuel of the model's
    walk is never exhausted) *)
 Theorem C05_walk_terminates : forall s, reachable s -> oof s = false.
 Proof. exact no_out_of_fuel. Qed.
@@ -37,30 +42,48 @@ Proof. exact complete_at_most_once. Qed.
 Print Assumptions C05_once.
 
 (* only after the closure has drained: when <e>_complete has been fired, every event of the
-   closure of e (e itself, everything fired directly or transitively by plain handlers or by
-   generator steps, the exception events of raising handlers; cancelled and stopped events
-   included) is finished ... *)
+   closure of e (e itself, everything fired directly or transitively by plain handlers, by
+   generator steps or through call(), the exception / failure events of raising handlers;
+   cancelled and stopped events included) is finished ... *)
 Theorem C05_after_closure : forall s, reachable s -> forall e d,
   In (LFC e) (log s) -> gdesc (gpar s) e d -> phase s d = PFin.
 Proof. exact complete_after_closure. Qed.
 Print Assumptions C05_after_closure.
 
-(* ... where finished is final: such an event is neither queued nor has a pending generator ... *)
+(* ... where finished is final: such an event is not queued, has no registered task and no
+   handler suspended in a call ... *)
 Theorem C05_finished_is_final : forall s, reachable s -> forall d, phase s d = PFin ->
-  ~ In d (queue s) /\ (forall t, In t (tasks s) -> tev t <> d).
+  ~ In d (queue s) /\ (forall t, In t (tasks s) -> tev t <> d) /\
+  (forall w, In w (waiters s) -> tev (wtask w) <> d).
 Proof. exact fin_is_final. Qed.
 Print Assumptions C05_finished_is_final.
 
-(* ... and, purely in terms of the log: no handler invocation, generator step or firing of an
-   event of the closure of e is logged after the firing of <e>_complete (l2 = what came later) *)
+(* ... and, purely in terms of the log: no handler invocation, generator step, firing or (for
+   manager-generated events) dispatch of an event of the closure of e is logged after the firing
+   of <e>_complete (l2 = what came later) *)
 Theorem C05_after_closure_log : forall s, reachable s -> forall l1 l2 e y d,
   log s = l2 ++ LFC e :: l1 -> In y l2 -> hentry y d -> ~ gdesc (gpar s) e d.
 Proof. exact complete_log_order. Qed.
 Print Assumptions C05_after_closure_log.
 
+(* the exception event and the <x>_failure event of a raising handler (plain or generator step)
+   of x are effects of x ... *)
+Theorem C05_feedback_in_closure : forall s, reachable s -> forall d x,
+  kind s d = KExc x \/ kind s d = KFail x -> gpar s d = Some x.
+Proof. exact (kg_reachable fixed). Qed.
+Print Assumptions C05_feedback_in_closure.
+
+(* ... so <e>_complete is fired after their dispatch, too *)
+Theorem C05_feedback_before_complete : forall s, reachable s -> forall l1 l2 e d x,
+  log s = l2 ++ LFC e :: l1 -> In (LD d) l2 -> kind s d = KExc x \/ kind s d = KFail x ->
+  ~ gdesc (gpar s) e x.
+Proof. exact feedback_after. Qed.
+Print Assumptions C05_feedback_before_complete.
+
 (* always eventually: as soon as the closure of a fired, not cancelled, complete-requesting
    event has drained, <e>_complete has been fired -- exactly once.  No hypothesis on how the
-   members of the closure ended (cancelled before dispatch, stopped, raising handlers) *)
+   members of the closure ended (cancelled before dispatch, stopped, raising plain handlers,
+   raising generator steps, calls) *)
 Theorem C05_fires_when_drained : forall s, reachable s ->
   forall e, e < next s -> ev_compl (spec s e) = true -> ev_canc (spec s e) = false ->
   (forall d, gdesc (gpar s) e d -> phase s d = PFin) ->
@@ -68,59 +91,112 @@ Theorem C05_fires_when_drained : forall s, reachable s ->
 Proof. exact complete_when_drained. Qed.
 Print Assumptions C05_fires_when_drained.
 
-(* in particular when the queue and the task set are empty *)
-Theorem C05_eventually : forall s, reachable s -> queue s = [] -> tasks s = [] ->
+(* in particular when the queue and the task set are empty and no handler is suspended in a call *)
+Theorem C05_eventually : forall s, reachable s -> queue s = [] -> tasks s = [] -> waiters s = [] ->
   forall e, e < next s -> ev_compl (spec s e) = true -> ev_canc (spec s e) = false ->
   fc_count e (log s) = 1.
 Proof. exact complete_eventually. Qed.
 Print Assumptions C05_eventually.
 
 (* and then nothing is left behind: every event is finished and has lost its cause attribute *)
-Theorem C05_quiescent_clean : forall s, reachable s -> queue s = [] -> tasks s = [] ->
+Theorem C05_quiescent_clean : forall s, reachable s -> queue s = [] -> tasks s = [] -> waiters s = [] ->
   forall e, e < next s -> phase s e = PFin /\ cause s e = None.
 Proof. exact quiescent_all_finished. Qed.
 Print Assumptions C05_quiescent_clean.
 
-(* the executable [run] used by the correspondence check (Manager.tick's schedule, task order
-   per tick given) only produces reachable states, so all of the above applies to it *)
+(* the executable [run] used by the correspondence check (Manager.tick's schedule: tasks in the
+   given order, then one flush of the queue snapshot in (priority, firing order) order) only
+   produces reachable states, so all of the above applies to it *)
 Theorem C05_run_reachable : forall fuel sched roots,
-  oof (run fuel sched (start roots)) = false -> reachable (run fuel sched (start roots)).
+  oof (run fixed fuel sched (start roots)) = false -> reachable (run fixed fuel sched (start roots)).
 Proof. intros fuel sched roots. apply run_reachable. apply start_reachable. Qed.
 Print Assumptions C05_run_reachable.
 
-(* ---- non-vacuity: concrete programs *)
+(* ---- the two defects repaired by 3d18683 and 0cf44dc, documented on the [legacy] model
+   (the same transition system without the two repairs) *)
 
-(* root 1 (complete) has a generator handler whose second step fires 2; 2's handler fires 3
-   (cancelled) and 4 (whose handler stops and raises).  <1>_complete is fired once, last. *)
+(* C05_eventually fails: a cancelled descendant is never released, <e>_complete never fires *)
+Theorem C05_legacy_cancel_refuted :
+  exists roots ls, let s := exec legacy ls (start roots) in
+    queue s = [] /\ tasks s = [] /\ waiters s = [] /\
+    exists e, e < next s /\ ev_compl (spec s e) = true /\ ev_canc (spec s e) = false /\
+              fc_count e (log s) = 0.
+Proof. exact legacy_cancel_refuted. Qed.
+Print Assumptions C05_legacy_cancel_refuted.
+
+(* C05_after_closure_log fails: an event fired from a generator step is handled after
+   <e>_complete has been fired *)
+Theorem C05_legacy_genstep_refuted :
+  exists roots ls l1 l2 e y d, let s := exec legacy ls (start roots) in
+    log s = l2 ++ LFC e :: l1 /\ In y l2 /\ hentry y d /\ gdesc (gpar s) e d.
+Proof. exact legacy_genstep_refuted. Qed.
+Print Assumptions C05_legacy_genstep_refuted.
+
+(* the same two programs and schedules under the current code *)
+Example C05_fixed_cancel :
+  fc_count 0 (log (exec fixed [LDisp 0; LDisp 0] (start legacy_cancel_prog))) = 1.
+Proof. exact fixed_cancel_ok. Qed.
+Example C05_fixed_genstep :
+  rev (log (exec fixed [LDisp 0; LTask 0; LTask 0; LDisp 0] (start legacy_genstep_prog)))
+  = [LF 0; LG 0 0 0; LG 0 0 1; LF 1; LH 1 0; LFC 0].
+Proof. exact fixed_genstep_ok. Qed.
+
+(* ---- non-vacuity: a concrete program *)
+
+(* root 1 (complete, success requested) has a generator handler: step 0; then it CALLS event 2
+   (channel 1, failure requested); then step 2 fires 5.  Event 2 has a plain handler that fires 3
+   (cancelled) and 4 (priority -1, complete-requesting, whose first handler stops and raises) and a
+   generator handler that raises.  <1>_complete is fired once, after all of that, and before
+   <1>_success is dispatched. *)
 Definition ex_prog : list ev :=
-  [Ev 1 true false
-      [HG [[]; [Ev 2 false false
-                   [HP [Ev 3 false true [HP [] false false];
-                        Ev 4 true false [HP [] true true; HP [] false false]] false false]]]]].
-Definition ex_final : st := run 20 [[]; [(1, 0)]; [(1, 0)]] (start ex_prog).
+  [Ev 1 true false true false 1 0
+      [HG 0 [GS []; GC (Ev 2 false false false true 1 1
+                   [HP 1 [Ev 3 false true false false 1 0 [HP 0 [] false false];
+                          Ev 4 true false false false 0 0 [HP 0 [] true true; HP 0 [] false false]] false false;
+                    HG 1 [GR []]]);
+             GS [Ev 5 false false false false 1 0 []]]]].
+Definition ex_final : st :=
+  run fixed 30 [[]; [(1, 0)]; [(1, 0)]; [(2, 1)]; []; [(1, 0)]; [(1, 0)]; [(1, 0)]] (start ex_prog).
 
 Example C05_ex_reachable_quiet :
-  reachable ex_final /\ queue ex_final = [] /\ tasks ex_final = [] /\ next ex_final = 7.
+  reachable ex_final /\ queue ex_final = [] /\ tasks ex_final = [] /\ waiters ex_final = [] /\
+  next ex_final = 12.
 Proof.
   split; [apply C05_run_reachable; vm_compute; reflexivity|]. vm_compute. auto.
 Qed.
-(* ids: 0 = event 1, 1 = event 2, 2 = event 3 (cancelled), 3 = event 4, 4 = exception event of 4,
-   5 = <4>_complete, 6 = <1>_complete *)
+(* ids: 0 = event 1, 1 = event 2 (called), 2 = event 3 (cancelled), 3 = event 4, 4 = <2>_failure,
+   5 = exception of 2, 6 = <2>_done (fired from the raising generator step: an effect of 2),
+   7 = exception of 4, 8 = <4>_complete, 9 = event 5, 10 = <1>_success, 11 = <1>_complete *)
 Example C05_ex_log : rev (log ex_final) =
-  [LF 0; LG 0 0 0; LG 0 0 1; LF 1; LH 1 0; LF 2; LF 3; LH 3 0; LFC 3; LFC 0; LDC 3; LDC 0].
+  [LF 0; LG 0 0 0; LG 0 0 1; LF 1; LH 1 0; LF 2; LF 3; LG 1 1 0; LH 3 0; LD 4; LD 5; LD 6; LD 7;
+   LFC 3; LG 0 0 2; LF 9; LDC 3; LFC 0; LD 10; LDC 0].
 Proof. vm_compute. reflexivity. Qed.
-Example C05_ex_closure : gdesc (gpar ex_final) 0 4 /\ gpar ex_final 2 = Some 1 /\ ev_canc (spec ex_final 2) = true.
+Example C05_ex_kinds :
+  map (kind ex_final) [4; 5; 6; 7; 10] = [KFail 1; KExc 1; KDone 1; KExc 3; KSucc 0] /\
+  map (gpar ex_final) [1; 2; 3; 4; 5; 6; 7; 9] =
+    [Some 0; Some 1; Some 1; Some 1; Some 1; Some 1; Some 3; Some 0].
+Proof. vm_compute. auto. Qed.
+Example C05_ex_closure : gdesc (gpar ex_final) 0 7 /\ ev_canc (spec ex_final 2) = true.
 Proof.
   split; [|vm_compute; auto].
   apply gd_step with (h := 3); [vm_compute; reflexivity|].
   apply gd_step with (h := 1); [vm_compute; reflexivity|].
   apply gd_step with (h := 0); [vm_compute; reflexivity|]. apply gd_refl.
 Qed.
-(* a reachable state in which the counter invariant is non-trivial: event 2 (id 1) has been
-   dispatched and is finished, its two effects (ids 2, 3) are still queued: effects = 0 + 2;
-   event 1 (id 0) has finished too and waits for event 2 only: effects = 0 + 1 *)
+(* <1>_success (id 10) is not an effect of event 1: it is dispatched after <1>_complete was fired *)
+Example C05_ex_success_outside :
+  gpar ex_final 10 = None /\ kind ex_final 10 = KSucc 0 /\
+  exists l1 l2, log ex_final = l2 ++ LFC 0 :: l1 /\ In (LD 10) l2.
+Proof.
+  split; [vm_compute; reflexivity|]. split; [vm_compute; reflexivity|].
+  exists (skipn 3 (log ex_final)), (firstn 2 (log ex_final)). vm_compute. auto.
+Qed.
+(* a reachable state in which the counter invariant is non-trivial: the called event 2 (id 1)
+   has been dispatched (its generator handler is pending), its effects 3 and 4 (ids 2, 3) are
+   queued: effects = 1 + 2; event 1 (id 0) is suspended in the call: effects = 1 + 1 *)
 Example C05_ex_counter :
-  let s := exec [LDisp; LTask 0; LTask 0; LDisp] (start ex_prog) in
-  cause s 1 = Some 0 /\ effects s 1 = 2%Z /\ phase s 1 = PFin /\
-  cnt (childb (cause s) 1) (next s) = 2 /\ effects s 0 = 1%Z /\ phase s 0 = PFin /\ queue s = [2; 3].
+  let s := exec fixed [LDisp 0; LTask 0; LTask 0; LDisp 0] (start ex_prog) in
+  cause s 1 = Some 0 /\ effects s 1 = 3%Z /\ phase s 1 = PActive /\
+  cnt (childb (cause s) 1) (next s) = 2 /\ effects s 0 = 2%Z /\ phase s 0 = PActive /\
+  queue s = [2; 3] /\ length (waiters s) = 1.
 Proof. vm_compute. repeat split; reflexivity. Qed.
